@@ -51,6 +51,13 @@ class Contract:
         self.alias_cases = list(kw.pop("alias_cases", []))  # e.g. [("second", "self")]
         self.fresh_result = bool(kw.pop("fresh_result", False))
         self.pure = bool(kw.pop("pure", False))
+        # the function is outside the verifier's data model BY DESIGN and its contract is only checked natively in a
+        # small scope (labelled bounded).  For every other function an "unsupported" body is an undecided verdict.
+        self.bounded_only = bool(kw.pop("bounded_only", False))
+        # decorators the contract knows about (source text, e.g. "hash_with_depth_bytes"): the contract then describes
+        # the undecorated body and another contract covers the wrapper.  Any OTHER decorator on the function makes a
+        # call run code this contract says nothing about -> outside the verifier's subset.
+        self.decorators = list(kw.pop("decorators", []))
         self.note = kw.pop("note", "")
         self.result_fields_unconstrained = kw.pop("result_fields_unconstrained", False)
         self.bind = dict(kw.pop("bind", {}))
